@@ -6,7 +6,7 @@ from oracle import *
 prt=prtpy.partitioning
 rng=random.Random(int(sys.argv[1]) if len(sys.argv)>1 else 0)
 N=int(sys.argv[2]) if len(sys.argv)>2 else 300
-algs={'ckk':(prt.ckk,{}),'snp':(prt.snp,{}),'rnp':(prt.rnp,{}),'cg':(prt.complete_greedy,{}),'dp':(prt.dp,{})}
+algs={'ckk':(prt.ckk,{}),'snp':(prt.snp,{}),'rnp':(prt.rnp,{}),'cg':(prt.complete_greedy,{})}
 bad={a:0 for a in algs}; exc={a:0 for a in algs}; tot={a:0 for a in algs}; tm={a:0.0 for a in algs}
 ex={}
 for t in range(N):
